@@ -256,7 +256,82 @@ def run(ctx, repo):
                    'image of such a spelling')
     ctx.rule('R7', '(thorough) per top-level alternative: Out(A_i) stays inside every family that contains A_i')
     ctx.rule('R8', '(thorough) set-level idempotence f_k(N_k) = N_k')
+    ctx.rule('R10', 'every return of normalize_event_code is the whitespace-removal expression or a format of whitespace-free match groups')
     ctx.rule('R9', 'memo transparency: a cache in the normalisation path is keyed by the plain argument, complete, and stores what it returns')
+    # ---- R10 every return of normalize_event_code is whitespace-free by construction: it returns the whitespace-removal expression
+    # itself, or a format of match groups whose languages hold no whitespace (decided before the structural model is read, so that a
+    # restructured function with a path around the removal is a finding and not an analysis error)
+    nec = utils.func('normalize_event_code')
+    WSL = ro.contains_any(A, P.WS)
+
+    def removes_ws(e):
+        if isinstance(e, ast.Call) and isinstance(e.func, ast.Attribute) and e.func.attr == 'join' and isinstance(e.func.value, ast.Constant) \
+                and e.func.value.value == '' and e.args and isinstance(e.args[0], ast.Call) and isinstance(e.args[0].func, ast.Attribute) \
+                and e.args[0].func.attr == 'split' and not e.args[0].args:
+            return True
+        if isinstance(e, ast.Call) and call_name(e) == 'sub' and e.args and isinstance(e.args[0], ast.Constant) and e.args[0].value in ('\\s', '\\s+') \
+                and len(e.args) >= 2 and isinstance(e.args[1], ast.Constant) and e.args[1].value == '':
+            return True
+        return False
+
+    def group_format_ws_free(e):
+        if not (isinstance(e, ast.BinOp) and isinstance(e.op, ast.Mod) and isinstance(e.left, ast.Constant) and isinstance(e.left.value, str)):
+            return False
+        if any(ch.isspace() for ch in e.left.value):
+            return False
+        args = e.right.elts if isinstance(e.right, ast.Tuple) else [e.right]
+        for a in args:
+            core = a.func.value if isinstance(a, ast.Call) and isinstance(a.func, ast.Attribute) and a.func.attr in ('upper', 'lower', 'strip') else a
+            if not (isinstance(core, ast.Call) and call_name(core) == 'group' and core.args and isinstance(core.args[0], ast.Constant)
+                    and isinstance(core.func.value, ast.Name)):
+                return False
+            # which pattern produced the match object?
+            mvar = core.func.value.id
+            pat = None
+            for n in ast.walk(nec):
+                if isinstance(n, ast.Assign) and isinstance(n.targets[0], ast.Name) and n.targets[0].id == mvar and isinstance(n.value, ast.Call) \
+                        and isinstance(n.value.func, ast.Attribute) and n.value.func.attr in ('match', 'search') and isinstance(n.value.func.value, ast.Name):
+                    pat = n.value.func.value.id
+            if pat is None or pat not in P.parsed:
+                return False
+            gid = core.args[0].value
+            if isinstance(gid, str):
+                gid = P.group_index(pat, gid)
+            g = find_group(list(P.need(pat)), gid)
+            if g is None or not P.is_empty(rx.inter(P.exact(g), WSL)):
+                return False
+        return True
+    n_ret = 0
+    for r in [x for x in ast.walk(nec) if isinstance(x, ast.Return)]:
+        n_ret += 1
+        v = r.value
+        def ok_value(x):
+            if isinstance(x, ast.Name):
+                from ..cfg import reaching_defs as _rd
+                ds_ = _rd(nec, x.id, x)
+                return bool(ds_) and all(d is not None and isinstance(d, ast.Assign) and (removes_ws(d.value) or group_format_ws_free(d.value)) for d in ds_)
+            return removes_ws(x) or group_format_ws_free(x)
+        if v is not None and isinstance(v, ast.Subscript) and isinstance(v.value, ast.Name):
+            # a memo hit: what the function stores in that container is what it returns elsewhere (transparency is rule HIST / R9)
+            stores_ = [a for a in ast.walk(nec) if isinstance(a, ast.Assign) and any(
+                isinstance(t, ast.Subscript) and isinstance(t.value, ast.Name) and t.value.id == v.value.id for t in a.targets)]
+            if stores_ and all(ok_value(a.value) for a in stores_):
+                ctx.ok('R10', 'return at line %d is a memo hit of whitespace-free values' % r.lineno)
+                continue
+        if v is not None and isinstance(v, ast.Name):
+            from ..cfg import reaching_defs
+            ds = reaching_defs(nec, v.id, v)
+            okv = bool(ds) and all(d is not None and isinstance(d, ast.Assign) and (removes_ws(d.value) or group_format_ws_free(d.value)) for d in ds)
+        else:
+            okv = v is not None and (removes_ws(v) or group_format_ws_free(v))
+        if okv:
+            ctx.ok('R10', 'return at line %d is whitespace-free by construction' % r.lineno)
+        else:
+            ctx.finding('R10', '%s::normalize_event_code::a return bypasses the whitespace removal' % UTILS, UTILS, r.lineno,
+                        '`%s` returns a value that has not passed through the whitespace removal: the patterns admit blanks inside a code '
+                        "('400 H', '3000\\tsc'), so such a code comes back with its blanks and spellings that differ only in spacing do not meet"
+                        % unparse(r), '400 H')
+    ctx.floor('returns of normalize_event_code examined', n_ret, 1)
     S = read_slots(P, utils)
     ctx.note('removal idiom of the final expression', S.removed_desc)
     ctx.note('_gnorms', gn)
